@@ -53,6 +53,43 @@ Theorem C11_solver_history_stable :
 Proof. exact @solver_result_history_stable. Qed.
 Print Assumptions C11_solver_history_stable.
 
+(* A LATER solve with the same solver object cannot touch what an earlier result describes: the second solve starts in
+   the world the first one left behind (heap with every list object created so far), with any configuration, initial
+   population, logs and fuel; every entry of the history in the FIRST result still dereferences, in the heap after the
+   second solve, to the population it denoted when it was reported.  The history LIST of a result is a value in this
+   model; that results of different solves share no list object in the implementation is tested by the two-solve
+   sequences of harness/props/c11.py (solver family), not proved. *)
+Theorem C11_later_solves_leave_results :
+  forall (V : Type) (veqb : V -> V -> bool) (ieq : individual V -> individual V -> bool) (zero : V)
+         (ev : individual V -> result Q) (legacy_opt : bool)
+         (estimate : op -> hpop (V := V) -> option Z) (Init Dist AuxEv AV : Type)
+         (measure : option Init -> individual V -> Dist) (aux_eval : AuxEv -> individual V -> AV)
+         (cfg1 cfg2 : config (individual V) (hres (V := V)) op Init AuxEv)
+         (h0 : heap (V := V)) (pop0 : hpop (V := V)) (logs1 : list (oplog V)) (fuel1 : nat) res1
+         (pop0' : hpop (V := V)) (logs2 : list (oplog V)) (fuel2 : nat),
+    hp_ok h0 pop0 ->
+    let wd1 := evqe_world veqb ieq zero ev legacy_opt estimate Init Dist AuxEv AV measure aux_eval h0 pop0 logs1 in
+    let s1 := run (individual V) hres hpop op eworld Init Dist AuxEv AV hr_best_value hr_best cfg1 wd1 fuel1 in
+    finish (individual V) hres hpop op eworld Init Dist AuxEv AV cfg1 wd1 s1 = Ok res1 ->
+    hp_ok (fst (l_w _ _ _ _ _ s1)) pop0' ->
+    let wd2 := evqe_world veqb ieq zero ev legacy_opt estimate Init Dist AuxEv AV measure aux_eval (fst (l_w _ _ _ _ _ s1)) pop0' logs2 in
+    let s2 := run (individual V) hres hpop op eworld Init Dist AuxEv AV hr_best_value hr_best cfg2 wd2 fuel2 in
+    forall r, In r (sr_history _ _ _ _ _ res1) ->
+              deref (fst (l_w _ _ _ _ _ s2)) (hr_pop r) = deref (hr_at r) (hr_pop r).
+Proof. exact @later_solve_leaves_result. Qed.
+Print Assumptions C11_later_solves_leave_results.
+
+Example C11_two_solves_example :
+  hp_ok [] Heap_proofs.w_init /\ hp_ok (fst (l_w _ _ _ _ _ ex_s1)) Heap_proofs.w_init
+  /\ match finish _ _ _ _ _ _ _ _ _ ex_cfg (ex_world []) ex_s1,
+           finish _ _ _ _ _ _ _ _ _ ex_cfg (ex_world (fst (l_w _ _ _ _ _ ex_s1))) ex_s2 with
+     | Ok r1, Ok r2 => length (sr_history _ _ _ _ _ r1) = 1%nat /\ length (sr_history _ _ _ _ _ r2) = 1%nat
+                       /\ length (fst (l_w _ _ _ _ _ ex_s1)) = 1%nat /\ length (fst (l_w _ _ _ _ _ ex_s2)) = 2%nat
+     | _, _ => False
+     end.
+Proof. exact two_solves_example. Qed.
+Print Assumptions C11_two_solves_example.
+
 (* write-once cells: in the repaired variant an application only appends cells *)
 Theorem C11_cells_write_once :
   forall (V : Type) (veqb : V -> V -> bool) (ieq : individual V -> individual V -> bool) (zero : V)
